@@ -114,12 +114,12 @@ PROPS = {
     "C03": {
         "kernel_sample": 200,
         "harness_timeout": 3000,
-        "rule": "model comparison through dds::decode on one 4x4 surface per block, U8 and U16 outputs, native and RGB-only channel layouts: BC1 family colour halves - all 32x32 endpoint pairs per 5-bit channel and all 64x64 (quick: every second) per 6-bit channel in both orderings x 6 index patterns + random; "
+        "rule": "model comparison through dds::decode on one 4x4 surface per block, U8, U16 and F32 outputs, native and RGB-only channel layouts: BC1 family colour halves - all 32x32 endpoint pairs per 5-bit channel and all 64x64 (quick: every second) per 6-bit channel in both orderings x 6 index patterns + random; "
                 "BC2 alpha every nibble at every position; BC4/BC5/BC3-alpha all 256x256 endpoint pairs (quick: every 7th) x each index value at all 16 positions + random indices, both SNORM minimum codes; premultiplied (DXT2/DXT4) and RXGB variants; "
-                "BC7: every (mode, partition, rotation, index-selector) tuple x {all-zero, all-one, alternating, random, single-bit set/cleared} payloads, the reserved mode, random blocks; for BC7 the case also fails when the implementation-shaped and the specification-shaped decoder disagree on the block; distinct = distinct case lines",
+                "BC6H (UF16 and SF16): all 18 mode prefixes (10 two-region, 4 one-region, 4 reserved) x all 32 partitions x {all-zero, all-one, alternating, random, single-bit, extreme-delta} payloads at U8/U16/F32; every third block of every family also at F32 (bit patterns); BC7: every (mode, partition, rotation, index-selector) tuple x {all-zero, all-one, alternating, random, single-bit set/cleared} payloads, the reserved mode, random blocks; for BC7 the case also fails when the implementation-shaped and the specification-shaped decoder disagree on the block; distinct = distinct case lines",
         "trusted_base": BASE_TRUST + ["spec/SpecBC.v (nearest-rounding specification of BC1-5 palettes) and the BC7 mode table of model/BC7.v are written from the format description",
-                                      "spec/SpecBC7Tables.v: the BC7 partition/anchor tables were transcribed from the pinned commit (no independent copy of the standard is available offline); only their structure is proved (tables_structure)"],
-        "assumptions": ["BC6H and the F32 output precision are not modelled (partial)", "U16 output of the BC1-3 family and BC7 is specified as the 8-bit result widened exactly (x257), which is what the format specification's 8-bit decode followed by an exact UNORM conversion gives"],
+                                      "spec/SpecBC7Tables.v, spec/SpecBC6Tables.v: the BC7 partition/anchor tables and the BC6H bit layout were transcribed from the pinned commit (no independent copy of the standard is available offline); only their structure is proved (tables_structure)"],
+        "assumptions": ["the blue channel that BC3_UNORM_NORMAL reconstructs with a square root is not modelled", "U16 output of the BC1-3 family and BC7 is specified as the 8-bit result widened exactly (x257), which is what the format specification's 8-bit decode followed by an exact UNORM conversion gives"],
     },
     "C04": {
         "kernel_sample": 120,
